@@ -6,7 +6,7 @@
 From Coq Require Import Reals ZArith QArith List Bool String.
 From Coquelicot Require Import Coquelicot.
 From ADV Require Import Base.Fl Base.Num C01.Model C01.ModelR C01.ProofsCoef C01.ProofsSound.
-From ADV Require Import C01.ModelOpsLang C01.Ops_gen C01.ProofsGen C01.ProofsGenR.
+From ADV Require Import C01.ModelOpsLang C01.Ops_gen C01.ProofsGen C01.ProofsGenR C01.ProofsLoop C01.ProofsPred.
 Import ListNotations.
 Local Open Scope string_scope.
 
@@ -111,7 +111,75 @@ Proof.
     cbv [elem_dom mem existsb String.eqb Ascii.eqb Bool.eqb orb en_meth]. apply Rlt_0_2.
 Qed.
 
-(* Not translated (listed in Ops_gen.gen_untied and in the evidence as "hand-tied only"): the predicates
-   Equals Greater Smaller Sign (+ concrete twins) — the model states their meaning directly (cmpv, sign_of,
-   ModelOpsLang.ceval) — and the seven loops over vectors / matrices SmoothMax LogSmoothMax Vmean VdotV Vnorm
-   Mtrace Mnorm, whose tie remains the bit-exact replay. *)
+(* (G6) round 6 — the seven reductions over vectors / matrices.  [gen_loops] holds, for each of SmoothMax LogSmoothMax
+   Vmean VdotV Vnorm Mtrace Mnorm and each receiver type, what the source says NOW: the guards before the first write, the
+   local, the prologue, the loop (iteration scheme + body: a straight line of method calls with the current element(s) as
+   operands; Mnorm's i == 0 && j == 0 split) and the epilogue.  Its denotation [run_loop] on the register file IS the
+   model's program, for every carrier (reals, binary64/32 replay), EVERY vector length and all registers. *)
+Theorem generated_SmoothMax : forall (T : Type) (Fl0 : Fl T) (r32 : T -> T) recv r xs alpha t0 t1 loc s,
+  In recv ["Real64"; "Real32"] ->
+  run_loop Fl0 r32 (gen_loop recv "SmoothMax") r (map (fun x => [x]) xs) [alpha] [t0; t1] loc s =
+  do_smoothmax Fl0 r32 r xs alpha t0 t1 s.
+Proof. exact @loop_SmoothMax. Qed.
+Theorem generated_LogSmoothMax : forall (T : Type) (Fl0 : Fl T) (r32 : T -> T) recv r xs alpha t0 t1 t2 loc s,
+  In recv ["Real64"; "Real32"] ->
+  run_loop Fl0 r32 (gen_loop recv "LogSmoothMax") r (map (fun x => [x]) xs) [alpha] [t0; t1; t2] loc s =
+  do_logsmoothmax Fl0 r32 r xs alpha t0 t1 t2 s.
+Proof. exact @loop_LogSmoothMax. Qed.
+Theorem generated_Vmean : forall (T : Type) (Fl0 : Fl T) (r32 : T -> T) recv r xs loc s,
+  In recv ["Real64"; "Real32"] ->
+  run_loop Fl0 r32 (gen_loop recv "Vmean") r (map (fun x => [x]) xs) [] [] loc s = do_vmean Fl0 r32 r xs s.
+Proof. exact @loop_Vmean. Qed.
+Theorem generated_VdotV : forall (T : Type) (Fl0 : Fl T) (r32 : T -> T) recv r xs ys t s,
+  In recv ["Real64"; "Real32"] ->
+  run_loop Fl0 r32 (gen_loop recv "VdotV") r (map (fun xy => [fst xy; snd xy]) (combine xs ys)) [] [] t s =
+  do_vdotv Fl0 r32 r xs ys t s.
+Proof. exact @loop_VdotV. Qed.
+Theorem generated_Vnorm : forall (T : Type) (Fl0 : Fl T) (r32 : T -> T) recv r xs t s,
+  In recv ["Real64"; "Real32"] ->
+  run_loop Fl0 r32 (gen_loop recv "Vnorm") r (map (fun x => [x]) xs) [] [] t s = do_vnorm Fl0 r32 r xs t s.
+Proof. exact @loop_Vnorm. Qed.
+Theorem generated_Mtrace : forall (T : Type) (Fl0 : Fl T) (r32 : T -> T) recv r diag loc s,
+  In recv ["Real64"; "Real32"] ->
+  run_loop Fl0 r32 (gen_loop recv "Mtrace") r (map (fun x => [x]) diag) [] [] loc s = do_mtrace Fl0 r32 r diag s.
+Proof. exact @loop_Mtrace. Qed.
+Theorem generated_Mnorm : forall (T : Type) (Fl0 : Fl T) (r32 : T -> T) recv r xs t s,
+  In recv ["Real64"; "Real32"] ->
+  run_loop Fl0 r32 (gen_loop recv "Mnorm") r (map (fun x => [x]) xs) [] [] t s = do_mnorm Fl0 r32 r xs t s.
+Proof. exact @loop_Mnorm. Qed.
+(* iteration scheme, guards, local, parameter counts; nothing missing, nothing extra *)
+Theorem generated_loops_shape_and_completeness :
+  map loop_shape (filter (fun b => String.eqb (lp_recv b) "Real64") gen_loops) = expected_shapes /\
+  map loop_shape (filter (fun b => String.eqb (lp_recv b) "Real32") gen_loops) = expected_shapes /\
+  forallb (fun b => String.eqb (lp_recv b) "Real64" || String.eqb (lp_recv b) "Real32") gen_loops = true.
+Proof. exact gen_loops_shape. Qed.
+(* the statements are about programs that do something: a three-element SmoothMax on the generated loop *)
+Example generated_loop_instance : forall (T : Type) (Fl0 : Fl T) (r32 : T -> T) alpha s,
+  run_loop Fl0 r32 (gen_loop "Real32" "SmoothMax") 0%nat (map (fun x => [x]) [Rg 3%nat; Rg 4%nat; Rg 5%nat]) [alpha] [1%nat; 2%nat] 0%nat s =
+  do_smoothmax Fl0 r32 0%nat [Rg 3%nat; Rg 4%nat; Rg 5%nat] alpha 1%nat 2%nat s /\ lp_body (gen_loop "Real32" "SmoothMax") <> [].
+Proof. intros. split; [apply loop_SmoothMax; right; left; reflexivity|discriminate]. Qed.
+
+(* (G7) round 6 — the predicates the composite operations branch on, as the source writes them NOW (receiver = operand 0):
+   a.Greater(b) is the swap test of LogAdd (ModelOpsLang.ceval BGreater / Model.do_logadd), a.Sign() the switch of Abs
+   (Model.do_abs: sign_of); rnd = conversion of the RECEIVER's type (GetFloat64 for Real64, GetFloat32 for Real32; a
+   stored Real32 value is a fixed point of float32(.)).  For every carrier and all values. *)
+Theorem generated_Greater : forall (T : Type) (Fl0 : Fl T) (r32 : T -> T) recv meth x y,
+  In recv ["Real64"; "Real32"] -> In meth ["Greater"; "GREATER"] ->
+  pred_bool Fl0 r32 (gen_pred recv meth) x y = Some (fltb Fl0 (rndk r32 (kind_of recv) y) (rndk r32 (kind_of recv) x)).
+Proof. exact @pred_Greater. Qed.
+Theorem generated_Smaller : forall (T : Type) (Fl0 : Fl T) (r32 : T -> T) recv meth x y,
+  In recv ["Real64"; "Real32"] -> In meth ["Smaller"; "SMALLER"] ->
+  pred_bool Fl0 r32 (gen_pred recv meth) x y = Some (fltb Fl0 (rndk r32 (kind_of recv) x) (rndk r32 (kind_of recv) y)).
+Proof. exact @pred_Smaller. Qed.
+Theorem generated_Sign : forall (T : Type) (Fl0 : Fl T) (r32 : T -> T) recv meth x,
+  In recv ["Real64"; "Real32"] -> In meth ["Sign"; "SIGN"] ->
+  pred_int Fl0 r32 (gen_pred recv meth) x = Some (sign_of Fl0 (rndk r32 (kind_of recv) x)).
+Proof. exact @pred_Sign. Qed.
+Theorem generated_predicates_are_complete :
+  map (fun p => (pd_recv p, pd_meth p)) gen_preds =
+  (list_prod ["Real64"] ["Greater"; "Smaller"; "Sign"] ++ list_prod ["Real32"] ["Greater"; "Smaller"; "Sign"] ++
+   list_prod ["Real64"] ["GREATER"; "SMALLER"; "SIGN"] ++ list_prod ["Real32"] ["GREATER"; "SMALLER"; "SIGN"])%list.
+Proof. exact gen_preds_complete. Qed.
+
+(* Not translated (listed in Ops_gen.gen_untied and in the evidence as "hand-tied only"): Equals / EQUALS (an epsilon
+   comparison with NaN / Inf cases; no operation of this property calls it). *)
